@@ -51,7 +51,11 @@ impl Tier {
 #[derive(Clone, Debug)]
 pub struct Args {
     pub prop: String,
+    /// the tier that sizes the enumeration
     pub tier: Tier,
+    /// the tier reported in the evidence (differs from `tier` only with --deep: cheap labs run their
+    /// thorough enumeration already in the quick tier)
+    pub report_tier: Tier,
     pub seed: u64,
     pub replay: Option<PathBuf>,
     pub worker: Option<String>,
@@ -67,12 +71,14 @@ impl Args {
                 Ok("thorough") => Tier::Thorough,
                 _ => Tier::Quick,
             },
+            report_tier: Tier::Quick,
             seed: std::env::var("VERIF_SEED").ok().and_then(|s| s.parse().ok()).unwrap_or(0),
             replay: None,
             worker: None,
             out: None,
             rest: vec![],
         };
+        let mut deep = false;
         let mut it = std::env::args().skip(1);
         while let Some(x) = it.next() {
             match x.as_str() {
@@ -84,11 +90,16 @@ impl Args {
                         o => machinery_error(&format!("bad --tier {o:?}")),
                     }
                 },
+                "--deep" => deep = true,
                 "--replay" => a.replay = Some(PathBuf::from(it.next().expect("--replay PATH"))),
                 "--worker" => a.worker = Some(it.next().expect("--worker SPEC")),
                 "--out" => a.out = Some(PathBuf::from(it.next().expect("--out PATH"))),
                 _ => a.rest.push(x),
             }
+        }
+        a.report_tier = a.tier;
+        if deep {
+            a.tier = Tier::Thorough;
         }
         a
     }
@@ -477,7 +488,7 @@ impl Run {
         }
         let ev = json!({
             "property_id": self.prop,
-            "tier": self.args.tier.name(),
+            "tier": self.args.report_tier.name(),
             "seed": self.args.seed,
             "level": self.level,
             "coverage": Value::Object(cov),
@@ -494,7 +505,7 @@ impl Run {
         println!(
             "{} tier={} evaluations={} distinct_nontrivial={} unlisted_violations={} known={} wall={:.1}s",
             self.prop,
-            self.args.tier.name(),
+            self.args.report_tier.name(),
             evaluations,
             distinct,
             unlisted,
